@@ -8,6 +8,7 @@ import (
 	"go/token"
 	"go/types"
 	"os"
+	"regexp"
 	"sort"
 	"strings"
 
@@ -136,10 +137,16 @@ func (n *normalizer) inlinable(fd *ast.FuncDecl, sig *types.Signature, fn types.
 	ok := true
 	ast.Inspect(fd.Body, func(x ast.Node) bool {
 		switch y := x.(type) {
-		case *ast.DeferStmt, *ast.LabeledStmt:
+		case *ast.DeferStmt:
 			ok = false
+		case *ast.LabeledStmt:
+			// labels this normaliser generated (an earlier round inlined something into the helper)
+			// are renamed when the helper's text is copied
+			if !generatedLabel.MatchString(y.Label.Name) {
+				ok = false
+			}
 		case *ast.BranchStmt:
-			if y.Tok == token.GOTO || y.Label != nil {
+			if y.Tok == token.GOTO || (y.Label != nil && !generatedLabel.MatchString(y.Label.Name)) {
 				ok = false
 			}
 		case *ast.CallExpr:
@@ -247,6 +254,14 @@ func (n *normalizer) bodyTextX(fd *ast.FuncDecl, file *ast.File, prefix string, 
 						}
 					}
 				}
+			case *ast.LabeledStmt:
+				if generatedLabel.MatchString(z.Label.Name) {
+					edits = append(edits, textEdit{n.off(z.Label.Pos()) - base, n.off(z.Label.End()) - base, labelPrefix(prefix) + z.Label.Name})
+				}
+			case *ast.BranchStmt:
+				if z.Label != nil && generatedLabel.MatchString(z.Label.Name) {
+					edits = append(edits, textEdit{n.off(z.Label.Pos()) - base, n.off(z.Label.End()) - base, labelPrefix(prefix) + z.Label.Name})
+				}
 			case *ast.ReturnStmt:
 				if inLit {
 					return true
@@ -276,6 +291,11 @@ func (n *normalizer) bodyTextX(fd *ast.FuncDecl, file *ast.File, prefix string, 
 	body := applyEdits(append([]byte{}, src[base:end]...), edits)
 	return string(body), true
 }
+
+var generatedLabel = regexp.MustCompile(`^(inl[0-9]+x)*inl[0-9]+L$`)
+
+// labelPrefix: "inl12_" -> "inl12x" (labels of a copied helper body stay unique per copy).
+func labelPrefix(prefix string) string { return strings.TrimSuffix(prefix, "_") + "x" }
 
 // pureArg: an argument expression without side effects whose value the callee
 // cannot change (identifiers, field selections, literals, &x, conversions of such).
